@@ -1,4 +1,5 @@
 pub mod arenaconc;
+pub mod capconc;
 pub mod capture;
 pub mod normalize;
 pub mod pred;
@@ -50,6 +51,7 @@ pub fn by_name(name: &str) -> Option<Box<dyn Suite>> {
         "capture" => Box::new(capture::Capture),
         "arenaconc" => Box::new(arenaconc::ArenaConc),
         "pred" => Box::new(pred::Pred),
+        "capconc" => Box::new(capconc::CapConc),
         _ => return None,
     })
 }
